@@ -8,16 +8,20 @@
 (*   Fixed = FALSE  as found: return values of the fetches are ignored (locals keep whatever they held: modelled       *)
 (*                  as the marker -1 / the flag uninit), pointers are followed without any bound.                      *)
 (*                  Expected to violate BoundedDepth and NoUninit (MC_DnsParse_asfound*.cfg).                          *)
+(*   ResetOnLabel   a limit that counts only consecutive pointers: a loop through an ordinary label is never cut.      *)
+(*                  Expected to violate BoundedDepth (MC_DnsParse_resetonlabel.cfg).                                   *)
 (*                                                                                                                     *)
 (* Properties: BoundedDepth (recursion bounded), NoUninit, Safe (OnlyEncoded for whatever is reported), Conforms       *)
 (* (well-formed replies give exactly the reference result DnsReply!Classify), Terminates (step bound).                 *)
 EXTENDS DnsGen, TLC
-CONSTANTS Fixed, MaxJumps, Dgrams
+CONSTANTS Fixed, MaxJumps, Dgrams,
+          ResetOnLabel   \* defective limit: only CONSECUTIVE pointers are counted (an ordinary label resets the count)
 VARIABLES d, pc, pos, stack, ret, qd, an, cur, out, err, uninit, steps
 pvars == <<d, pc, pos, stack, ret, qd, an, cur, out, err, uninit, steps>>
 
 U == 999   \* not a byte: the marker of a local that was never written
-Frame(p) == [pos |-> p, labels |-> <<>>]
+Frame(p) == [pos |-> p, labels |-> <<>>, chain |-> 0]   \* chain: consecutive pointers followed to get here
+FrameC(p, c) == [pos |-> p, labels |-> <<>>, chain |-> c]
 Top == stack[Len(stack)]
 SetTop(f) == [stack EXCEPT ![Len(stack)] = f]
 NoCur == [type |-> 0, len |-> 0, ttl |-> <<>>]
@@ -53,6 +57,8 @@ EndName ==   \* every frame returns: the name is the concatenation bottom-up; on
   LET RECURSIVE Cat(_)
       Cat(i) == IF i > Len(stack) THEN <<>> ELSE stack[i].labels \o Cat(i + 1)
   IN Cat(1)
+\* consecutive pointers when the pointer in frame f is followed: the chain continues only if f read no label of its own
+NewChain(f) == IF f.labels = <<>> THEN f.chain + 1 ELSE 1
 NameStep ==
   /\ pc = "name"
   /\ LET f == Top
@@ -63,18 +69,18 @@ NameStep ==
      ELSE LET len == B(d, f.pos) IN
        IF len = 0 THEN finish(f.pos + 1)
        ELSE IF len >= 192 THEN
-         IF Fixed /\ (~Has(d, f.pos, 2) \/ Len(stack) > MaxJumps) THEN Fail
+         IF Fixed /\ (~Has(d, f.pos, 2) \/ (IF ResetOnLabel THEN NewChain(f) > MaxJumps ELSE Len(stack) > MaxJumps)) THEN Fail
          ELSE LET low == IF Has(d, f.pos, 2) THEN B(d, f.pos + 1) ELSE 0
                   after == IF Has(d, f.pos, 2) THEN f.pos + 2 ELSE f.pos + 1
                   tgt == (len - 192) * 256 + low
               IN IF tgt >= Len(d) /\ Fixed THEN Fail
-                 ELSE /\ stack' = Append(SetTop([f EXCEPT !.pos = after]), Frame(IF tgt < Len(d) THEN tgt ELSE after))
+                 ELSE /\ stack' = Append(SetTop([f EXCEPT !.pos = after]), FrameC(IF tgt < Len(d) THEN tgt ELSE after, NewChain(f)))
                       /\ UNCHANGED <<d, pc, pos, ret, qd, an, cur, out, err, uninit>> /\ Step
        ELSE IF Has(d, f.pos + 1, len)
-            THEN /\ stack' = SetTop([pos |-> f.pos + 1 + len, labels |-> Append(f.labels, Bytes(d, f.pos + 1, len))])
+            THEN /\ stack' = SetTop([f EXCEPT !.pos = f.pos + 1 + len, !.labels = Append(f.labels, Bytes(d, f.pos + 1, len))])
                  /\ UNCHANGED <<d, pc, pos, ret, qd, an, cur, out, err, uninit>> /\ Step
             ELSE IF Fixed THEN Fail
-                 ELSE /\ stack' = SetTop([pos |-> f.pos + 1, labels |-> Append(f.labels, <<U>>)])       \* str[] never written
+                 ELSE /\ stack' = SetTop([f EXCEPT !.pos = f.pos + 1, !.labels = Append(f.labels, <<U>>)])       \* str[] never written
                       /\ UNCHANGED <<d, pc, pos, ret, qd, an, cur, out, err, uninit>> /\ Step
 
 NameEnd ==
